@@ -454,7 +454,8 @@ int main(int argc, char** argv) {
   }
   for (int al : {0, 2}) {
     exh.push_back({UR_PS, EXH, al, 0, 1});
-    exh.push_back({UR_PS, EXH, al, 1, 1});
+    if (al == 0 || H.thorough) // the largest sub-range slice for the other node weight only in the thorough tier
+      exh.push_back({UR_PS, EXH, al, 1, 1});
   }
   for (int al : {0, 2}) {
     exh.push_back({UR_GRAPH, EXH, al, 0, 0});
@@ -607,6 +608,8 @@ int main(int argc, char** argv) {
     case OFFLINE: runOfflineGraph(A, rng, GC, en.a, en.b, en.fam == EXH, en.c); break;
     case CSR_THREADS: runCsrThreadRanges(A, rng, GC, en.a); break;
     }
+    if (A.exhaustive_triples)
+      A.extra["exhaustive_triples." + comp] = A.exhaustive_triples;
     std::string sig = comp + "|" + fam + "|" + variant + "|mp" + (A.more_parts_than_elems ? "1" : "0") + "|z" +
                       (A.zero_size_inputs ? "1" : "0");
     H.end(k, sig, A.nontrivial(), A.obs());
